@@ -22,6 +22,7 @@ def tasks(tier, seed):
     ts += [{"kind": "cfg", "part": i, "parts": 4, "stride": 12 if q else 1} for i in range(4)]
     ts += [{"kind": "rnd_cfg", "count": 150 if q else 800, "seed": seed * 10 + i} for i in range(2 if q else 8)]
     ts += [{"kind": "dense_cfg", "count": 100 if q else 400, "seed": seed * 10 + i} for i in range(2 if q else 8)]
+    ts += [{"kind": "tall_cfg", "count": 12 if q else 60, "seed": seed * 10 + i} for i in range(2 if q else 8)]
     ts += [{"kind": "pda", "part": i, "parts": 4, "stride": 40 if q else 4} for i in range(4)]
     ts += [{"kind": "rnd_pda", "count": 80 if q else 500, "seed": seed * 10 + i} for i in range(2 if q else 8)]
     ts += [{"kind": "spelling_pda", "lo": 1 + 16 * i, "hi": min(64, 17 + 16 * i)} for i in range(4)]
@@ -145,6 +146,10 @@ def drive(task):
                 lhs = sorted({r[0] for r in src["rules"]} - {src["rules"][0][0]})
                 if lhs:
                     yield from build_events(dict(src, start=lhs[0]))
+    elif k == "tall_cfg":
+        for i in range(task["count"]):
+            src, d = cfgsrc.tall_src(rng)
+            yield from build_events(src, ns=[d + 2, d + 3, d + 4])
     elif k == "dense_cfg":
         for i in range(task["count"]):
             src = cfgsrc.dense_src(rng)
